@@ -36,7 +36,18 @@ func (s *gRPCServer) Close() error {
 }
 
 func (s *gRPCServer) Shutdown(ctx context.Context) error {
-	s.server.GracefulStop()
+	// GracefulStop waits for all open streams which may never end.
+	// Stop the server forcibly once the deadline has passed.
+	done := make(chan struct{})
+	go func() {
+		s.server.GracefulStop()
+		close(done)
+	}()
+	select {
+	case <-done:
+	case <-ctx.Done():
+		s.server.Stop()
+	}
 	return nil
 }
 
